@@ -1,6 +1,7 @@
 import PsVerif.Model.OpeningCheck
 import PsVerif.Gen.Tables
 import PsVerif.Gen.Consts
+import PsVerif.Props.C02
 /-
 C01  Taker pays the claim invoice only for a validated, confirmed opening output.
 
@@ -153,6 +154,30 @@ theorem C01_pay_only_after_confirmation :
 
 /-- required depths are the generated constants: 3 Bitcoin / 2 Liquid confirmations -/
 theorem C01_depths : bitcoinMinConfs = 3 ∧ liquidConfs = 2 := by decide
+
+/-! ### C01 ∘ C02: the hash locked in the output -/
+section
+open PsVerif.Model.Script PsVerif.Props.C02
+
+/-- the output script of a swap as the wallets and validators build it: P2WSH of the opening script bytes, with the
+    hash function a parameter -/
+def p2wshOf (sha : Bytes → Bytes) (maker taker : Bytes) (csv : Nat) (h : Bytes) : Bytes :=
+  0 :: 32 :: sha (scriptBytes maker taker h csv)
+
+/-- C01 ∘ C02: with the concrete script construction, an output that carries the script of one payment hash
+    carries the script of no other payment hash — under the one named assumption that the hash function does not
+    collide on the two scripts.  So the hash the taker pays for is the hash locked in the output. -/
+theorem C01_hash_locked (sha : Bytes → Bytes) (maker taker : Bytes) (csv : Nat) (h h' : Bytes)
+    (hm : maker.length = 33) (ht : taker.length = 33) (hh : h.length = 32) (hh' : h'.length = 32)
+    (hc : CsvOperand csv)
+    (hcoll : sha (scriptBytes maker taker h csv) = sha (scriptBytes maker taker h' csv) →
+             scriptBytes maker taker h csv = scriptBytes maker taker h' csv)
+    (e : p2wshOf sha maker taker csv h = p2wshOf sha maker taker csv h') : h = h' := by
+  unfold p2wshOf at e
+  simp only [List.cons.injEq, true_and] at e
+  exact (C02_script_injective maker taker h maker taker h' csv csv hm hm ht ht hh hh' hc hc (hcoll e)).2.2.1
+
+end
 
 -- non-vacuity; an output of the same value in front of the swap output does not matter
 example : validateBtc 1000 "w" [⟨500, "x"⟩, ⟨1000, "w"⟩] = true := by decide
